@@ -1,10 +1,56 @@
-(* Properties_C04.v — obligations of property C04.  Contains only theorem statements closed by
-   `exact <lemma>` and Print Assumptions. *)
-Require Import ObsRun.
+(* Properties_C04.v — obligations of property C04 (a callback fires exactly when its field changes,
+   and sees the new value). *)
+Require Import ObsRun Lemmas_Cb Lemmas_CbText.
 Local Open Scope Z_scope.
 
-(* non-vacuity: the observer of C04 is evaluated (and holds) along a run of the model that
-   touches every group kind *)
+(* For EVERY state, every group and each of PI, PTY, TP, TA, MS, ECC, country: the callbacks of that
+   field made during the call are exactly
+     [one callback, carrying the registered function, the current user data and — sampled at the
+      moment of the call — the value the getter returns after the call]
+        if the getter result after the call differs from before it and a callback is registered,
+     []  otherwise
+   (so: exactly when the value changes, at most once per call, never silently, never spuriously,
+   and the callback already sees the new value). *)
+Theorem C04_scalar_callbacks : forall conv lut f g s,
+  filter (isf (field_of f)) (snd (process conv lut g s)) =
+  if negb (getf f (used (fst (process conv lut g s))) =? getf f (used s)) && negb (cb s (field_of f) =? 0)
+  then [mkev (field_of f) (cb s (field_of f)) (ud s) ANone (SmZ (getf f (used (fst (process conv lut g s)))))]
+  else [].
+Proof. intros conv lut f g s. exact (process_scalar_callbacks conv lut f g s). Qed.
+Print Assumptions C04_scalar_callbacks.
+
+(* re-delivering the same group immediately (normal mode) notifies no scalar field: the accepted
+   value already equals the received one *)
+Theorem C04_scalar_redelivery_silent : forall conv lut f g s,
+  getf f (used (fst (process conv lut g (fst (process conv lut g s)))))
+  = getf f (used (fst (process conv lut g s))) ->
+  filter (isf (field_of f)) (snd (process conv lut g (fst (process conv lut g s)))) = [].
+Proof.
+  intros conv lut f g s H. rewrite process_scalar_callbacks. apply formula_same. exact H.
+Qed.
+Print Assumptions C04_scalar_redelivery_silent.
+
+(* Programme Service name: the PS callback is made exactly when some PS cell (character or level)
+   differs after the call, once, with the text the getter returns after the call *)
+Theorem C04_ps_callbacks : forall conv lut g s, Inv conv s -> wf_group g ->
+  filter (isf FPS) (snd (process conv lut g s)) =
+  if negb (cells_eqb (cells (ps (fst (process conv lut g s)))) (cells (ps s))) && negb (cb s FPS =? 0)
+  then [mkev FPS (cb s FPS) (ud s) ANone (SmText (tsnap_of (ps (fst (process conv lut g s)))))] else [].
+Proof. intros conv lut g s I W. exact (ps_callbacks conv lut g s I W). Qed.
+Print Assumptions C04_ps_callbacks.
+
+(* no callback at all outside a successful parse call *)
+Theorem C04_only_parse_calls_notify : forall conv lut s o,
+  op_group o = None -> snd (step conv lut s o) = [].
+Proof.
+  intros conv lut s o H. destruct o; try reflexivity; cbn in H; try discriminate.
+  destruct str as [l|]; [|reflexivity]. cbn [step]. cbn in H. rewrite H. reflexivity.
+Qed.
+Print Assumptions C04_only_parse_calls_notify.
+
+(* PARTIAL: for PTYN, RT (incl. the switch that discards a text) and the AF list the
+   statement "callback iff changed, sample = new value" is part of obs_C04 and is evaluated on the
+   model (Example) and on the library (check) but is not yet proved for all runs; the `changed`
+   flag of a text block is proved to be "some addressed cell changed" (upd_string_spec / changed2). *)
 Example C04_scenario : check_run_u (observer_u 4) scenario = true.
 Proof. vm_compute. reflexivity. Qed.
-Print Assumptions C04_scenario.
